@@ -41,8 +41,9 @@ type Run struct {
 	coroStack                  []*coroObj
 	ghost                      map[string]rowGhost
 	bbufs                      map[Ptr]*bbufState
-	unknowns                   int     // undecided feasibility queries on this path
-	soft                       []*Term // preferences for counterexample / witness models (never part of a verdict)
+	unknowns                   int             // undecided feasibility queries on this path
+	nlFree                     map[string]bool // atoms constrained to contain no newline
+	soft                       []*Term         // preferences for counterexample / witness models (never part of a verdict)
 	memo                       map[string]StrV
 	cs                         *concState
 	fsCalls                    []Value
@@ -188,7 +189,9 @@ func (r *Run) assertCond(c BoolV, id string) {
 		r.recordViolation(id, "", r.model())
 		panic(abortPath{"assertion violated on every input of the path: " + id})
 	}
+	r.solver.quick = r.unknowns > 0
 	res, model := r.checkModel(append(append([]*Term{}, r.pc...), mkNot(c.S)), r.symbols)
+	r.solver.quick = false
 	switch res {
 	case "unsat":
 		a.discharged++
@@ -311,6 +314,10 @@ func (e *Engine) registerPrims() {
 	}
 	noNL := func(r *Run, t *Term) {
 		r.pc = append(r.pc, mkNot(mk("str.contains", sortBool, t, mkStrLit("\n"))))
+		if r.nlFree == nil {
+			r.nlFree = map[string]bool{}
+		}
+		r.nlFree[t.Name] = true
 		// opaque strings are shorter than 2^30 bytes: lets the solver refute the integer-overflow guards of
 		// library code (bytes.Buffer.grow and the like) at once instead of timing out on them
 		r.pc = append(r.pc, mk("<=", sortBool, mk("str.len", sortInt, t), mkIntLit(1<<30)))
